@@ -21,7 +21,8 @@ def nVoxAux (lsq res : Rat) : Nat → Nat
   | 0 => 0
   | k + 1 => if (((k + 1 : Nat) : Rat) * res) ^ 2 ≤ lsq then k + 1 else nVoxAux lsq res k
 
-def nVox (lsq res : Rat) : Nat := nVoxAux lsq res 100000
+/-- the search starts at `⌊L²/res²⌋ + 1 ≥ L/res`, so nothing larger can qualify -/
+def nVox (lsq res : Rat) : Nat := nVoxAux lsq res ((lsq / res ^ 2).floor.toNat + 1)
 
 /-- voxel index triple of a fractional point -/
 def voxel3 (nx ny nz : Nat) (p : V3) : Nat × Nat × Nat := (voxOf nx p.x, voxOf ny p.y, voxOf nz p.z)
